@@ -175,7 +175,11 @@ def check_tls(eng, run):
         Interp(an, fn).run()
         ok = bool(an.starts) and bool(an.ends) and all(st == "armed" for _, st in an.ends) and not an.breaks
         if not an.starts or not an.ends:
-            raise AnalysisError(f"anchor vanished: queue-then-flush shape in AsyncTLSStreamTransport.{name}")
+            # the rule's own subject is gone: the send no longer queues the whole packet and then flushes once
+            run.finding("C12.tls", fn, fn.node, "the whole packet is no longer queued into the shared plaintext backlog in one step followed by a single flush: "
+                        "chunks of one packet are written and flushed separately, and a concurrent sender's records interleave with them")
+            run.ob("C12.tls", f"{fn.short}:queue-to-flush-atomic", False)
+            continue
         for b in an.breaks[:1]:
             run.finding("C12.tls", fn, _stmt_at(fn, b.lineno), "suspension point between queuing the caller's plaintext and writing it into the SSL object: another sender's plaintext can be queued in between and the two are written in one go, or out of call order")
         run.ob("C12.tls", f"{fn.short}:queue-to-flush-atomic", ok)
